@@ -48,6 +48,13 @@ def judgeParsed (path : List Char) (segs : List Segment) (decl : List (List Char
     (false, if segs.map render == want.filter (fun s => !s.isEmpty) then emptySegmentDroppedWhy else "segments rendered back differ from the template")
   else (true, "")
 
+/-- the axum route pattern of a template: the captures carry the SERDE names of the path struct's members, i.e. the Rust field
+names without the raw-identifier prefix (`PathSegment::to_axum_segment`, since the repair of F05-7) -/
+def axumPattern (decl : List (List Char × List Char)) (path : List Char) (fallback : Oas3.Path.Parsed) : List Char :=
+  match Oas3.Path.parsePath (decl.map fun (n, f) => (n, match f with | 'r' :: '#' :: r => r | i => i)) path with
+  | .ok p' => Oas3.Path.axumPath p'
+  | .error _ => Oas3.Path.axumPath fallback
+
 def parse : Handler := fun req => do
   let inp ← field req "in"
   let path ← chars (← field inp "path")
@@ -59,7 +66,7 @@ def parse : Handler := fun req => do
   let m := parsePath decl path
   let model := match m with
     | .ok p => Json.mkObj [("ok", Json.mkObj [("segments", Json.arr (p.segments.map segJson).toArray),
-        ("query", match p.query with | some q => str q | none => Json.null), ("axum", str (axumPath p))])]
+        ("query", match p.query with | some q => str q | none => Json.null), ("axum", str (axumPattern decl path p))])]
     | .error e => Json.mkObj [("err", errName e)]
   -- judge the implementation's own answer
   let injective := (decl.map (·.2)).eraseDups.length == decl.length && (decl.map (·.1)).eraseDups.length == decl.length
